@@ -2,19 +2,19 @@
    Proofs/ReplyBytes.v (stated under a section hypothesis "SMB replies are octet
    strings") instantiated with Proofs/SmbBytes.v. If the SMB facts come from
    another file, only the two names below change. *)
-From MS Require Import L2 Spec.View Spec.RefDec Spec.C04 Spec.EnvOk
+From MS Require Import L2 Spec.Pending Spec.View Spec.RefDec Spec.C04 Spec.EnvOk
      Proofs.SmbBytes Proofs.ReplyBytes.
 
 Theorem emitted_bytes_ok E cfg clk tb f tb' r evs :
   cfg_ok cfg = true -> env_ok E = true -> env_blobs_ok E = true ->
-  bytes_ok f = true -> bytes_ok (clk_date clk) = true ->
+  bytes_ok f = true -> bytes_ok (clk_date clk) = true -> table_pending_ok tb ->
   reply E cfg clk tb f = Ok (tb', Some r, evs) ->
   bytes_ok r = true.
 Proof. exact (reply_bytes_ok smb1_reply_bytes smb2_reply_bytes E cfg clk tb f tb' r evs). Qed.
 
 Theorem emitted_short E cfg clk tb f tb' r evs :
   cfg_ok cfg = true -> env_small E = true -> bytes_ok f = true ->
-  (length f <= 4096)%nat -> (length (clk_date clk) <= 64)%nat ->
+  (length f <= 4096)%nat -> (length (clk_date clk) <= 64)%nat -> table_pending_ok tb ->
   reply E cfg clk tb f = Ok (tb', Some r, evs) ->
   (length r < 65536)%nat.
 Proof. exact (reply_length E cfg clk tb f tb' r evs). Qed.
@@ -22,7 +22,7 @@ Proof. exact (reply_length E cfg clk tb f tb' r evs). Qed.
 Theorem wellformed_unconditional E cfg clk tb f tb' r evs :
   cfg_ok cfg = true -> env_ok E = true -> env_blobs_ok E = true -> env_small E = true ->
   bytes_ok f = true -> (length f <= 4096)%nat ->
-  bytes_ok (clk_date clk) = true -> (length (clk_date clk) <= 64)%nat ->
+  bytes_ok (clk_date clk) = true -> (length (clk_date clk) <= 64)%nat -> table_pending_ok tb ->
   reply E cfg clk tb f = Ok (tb', Some r, evs) ->
   wf_frame r = true.
 Proof. exact (wellformed_closed smb1_reply_bytes smb2_reply_bytes E cfg clk tb f tb' r evs). Qed.
